@@ -69,30 +69,44 @@ fn push_answer(p: &Pushed) -> String {
 struct Drained {
     len: usize,
     rate: f64,
+    /// sample_rate() asked again after each pulled value and at the end (the rate is a property of the drain,
+    /// not of how much of it has been read)
+    rates_later: Vec<f64>,
+    len_after: usize,
     vals: Vec<u64>,
 }
 
 /// `consume` with a closure that reads `len()`, `sample_rate()` and the first `k` (or all) values, then drops
 fn consume(res: &AtomicSamplingReservoir, k: Option<usize>) -> Drained {
-    let mut d = Drained { len: 0, rate: 0.0, vals: vec![] };
+    let mut d = Drained { len: 0, rate: 0.0, rates_later: vec![], len_after: 0, vals: vec![] };
     res.consume(|mut drain| {
         d.len = drain.len();
         d.rate = drain.sample_rate();
         match k {
             None => {
-                for v in &mut drain {
+                while let Some(v) = drain.next() {
                     d.vals.push(v.to_bits());
+                    if d.rates_later.len() < 4 {
+                        d.rates_later.push(drain.sample_rate());
+                    }
                 }
             }
             Some(k) => {
                 for _ in 0..k {
                     match drain.next() {
-                        Some(v) => d.vals.push(v.to_bits()),
+                        Some(v) => {
+                            d.vals.push(v.to_bits());
+                            if d.rates_later.len() < 4 {
+                                d.rates_later.push(drain.sample_rate());
+                            }
+                        }
                         None => break,
                     }
                 }
             }
         }
+        d.rates_later.push(drain.sample_rate());
+        d.len_after = drain.len();
     });
     d
 }
@@ -232,6 +246,15 @@ fn session(r: &mut Rng, out: &mut Out, cap: usize, wild: bool) {
         let expect_rate = if n == 0 { 1.0 } else { d.len as f64 / n as f64 };
         if d.rate.to_bits() != expect_rate.to_bits() {
             out.oracle_fail("sample rate is not yielded / pushed", &format!("{} expected {:?}", ctx(), expect_rate));
+        }
+        if let Some(bad) = d.rates_later.iter().find(|x| x.to_bits() != expect_rate.to_bits()) {
+            out.oracle_fail(
+                "sample rate asked after values were pulled is not yielded / pushed",
+                &format!("{} expected {:?}, sample_rate() after pulling {} value(s) gave {:?} (all later answers {:?})", ctx(), expect_rate, d.vals.len(), bad, d.rates_later),
+            );
+        }
+        if d.len_after + d.vals.len() != d.len {
+            out.oracle_fail("len() after pulling k values is not len - k", &format!("{} len_after={}", ctx(), d.len_after));
         }
         if !res.is_empty() {
             out.oracle_fail("reservoir not empty after a drain", &ctx());
@@ -509,6 +532,60 @@ fn straddle(out: &mut Out) {
                     first.0, first.1, later
                 ),
             );
+        }
+    }
+    // grid: a push that has selected its reservoir, then `j` COMPLETE consumes on another thread, then the push
+    // finishes.  Nothing overlaps a drain here, so every value (the straggler included) must come out of exactly
+    // one drain, with rate 1.0 (never more than the capacity is pushed), and drains in between start from empty.
+    for prefill in [0usize, 1, 3] {
+        for j in 1..=3usize {
+            for after in [0usize, 2] {
+                out.case(&format!("parked push grid prefill={} consumes_while_parked={} pushes_after={}", prefill, j, after));
+                out.count("parked-push grid cases");
+                let res = Arc::new(AtomicSamplingReservoir::new(8));
+                let mut expected: Vec<f64> = vec![];
+                for i in 0..prefill {
+                    res.push(10.0 + i as f64);
+                    expected.push(10.0 + i as f64);
+                }
+                let h = start_parked_push(&res, 99.0, "reservoir.push.selected");
+                expected.push(99.0);
+                let mut drains: Vec<(Vec<f64>, f64)> = vec![];
+                let mut one = |res: &AtomicSamplingReservoir, drains: &mut Vec<(Vec<f64>, f64)>| {
+                    let mut d = (vec![], 0.0);
+                    res.consume(|drain| {
+                        d.1 = drain.sample_rate();
+                        d.0 = drain.collect();
+                    });
+                    drains.push(d);
+                };
+                for _ in 0..j {
+                    one(&res, &mut drains);
+                }
+                RESUME.store(true, SeqCst);
+                h.join().unwrap();
+                for i in 0..after {
+                    res.push(50.0 + i as f64);
+                    expected.push(50.0 + i as f64);
+                }
+                for _ in 0..4 {
+                    one(&res, &mut drains);
+                }
+                let mut got: Vec<f64> = drains.iter().flat_map(|d| d.0.iter().copied()).collect();
+                let mut exp = expected.clone();
+                got.sort_by(|a, b| a.partial_cmp(b).unwrap());
+                exp.sort_by(|a, b| a.partial_cmp(b).unwrap());
+                let rates_ok = drains.iter().all(|d| d.1 == 1.0);
+                if got != exp || !rates_ok {
+                    out.oracle_fail(
+                        "a push that selected its reservoir before complete drains ran is lost, duplicated or mis-counted",
+                        &format!(
+                            "cap=8; {} values pushed; T: push(99.0) parked at reservoir.push.selected; main: {} complete consume(s); T resumes; {} more pushes; 4 more consumes. drains (values, rate) = {:?}; expected every one of {:?} exactly once and all rates 1.0",
+                            prefill, j, after, drains, expected
+                        ),
+                    );
+                }
+            }
         }
     }
     *verif::POINT_HOOK.write().unwrap() = None;
